@@ -526,8 +526,11 @@ func c02ClientBadSizes(c *ev.Ctx) {
 					s.SendRaw(hdr(sz, t, rq.Msg.Tag))
 					if sz > 7 {
 						n := int(minU64(uint64(sz-7), 1<<16))
-						for n > 0 {
+						for j := 0; n > 0; j++ {
 							k := minI(n, 64)
+							if j < 48 {
+								k = 1 // the first body bytes one by one: a single byte taken is seen
+							}
 							s.SendRaw(make([]byte, k))
 							n -= k
 						}
@@ -579,6 +582,9 @@ func c02ClientBadSizes(c *ev.Ctx) {
 				if gerr == nil || gerr == io.EOF {
 					c.Violation("C02:cli:call-succeeds-on-bad-size-field:"+cls, det)
 				}
+				// the header has been taken (the call failed on it); let the fake
+				// server's writer account it before counting body bytes
+				quiesce.WaitUntil(func() bool { return fs.Written() >= w0+7 }, wd)
 				if acc := fs.Written() - w0 - 7; acc > 0 {
 					det["body_bytes_accepted"] = acc
 					c.Violation("C02:cli:body-read-after-bad-size-field:"+cls, det)
@@ -589,6 +595,30 @@ func c02ClientBadSizes(c *ev.Ctx) {
 				}
 				c.Max("max_alloc_delta_bad_size_client", int64(a1-a0))
 				c.Count("client_bad_size_cases", 1)
+				// the connection has ended for this client: a later call fails
+				// too, and it does not take the refused frame's body for what
+				// comes next in the stream
+				fs.Handler = func(s *fakesrv.Server, rq *fakesrv.Req) {} // the later request is left unanswered
+				w1 := fs.Written()
+				later := make(chan struct{})
+				var lerr error
+				go func() {
+					defer close(later)
+					_, _, _, lerr = root.GetAttr(p9.AttrMaskAll)
+				}()
+				if out, dump := quiesce.Await(later, wd); out != quiesce.CondMet {
+					det["body_bytes_accepted_by_later_call"] = fs.Written() - w1
+					hang(c, out, dump, "C02:cli:later-call-hangs-after-bad-size-field:"+cls, det)
+					fs.Shutdown()
+					continue
+				}
+				if lerr == nil {
+					c.Violation("C02:cli:later-call-succeeds-after-bad-size-field:"+cls, det)
+				}
+				if acc := fs.Written() - w1; acc > 0 && sz > 7 {
+					det["body_bytes_accepted_by_later_call"] = acc
+					c.Violation("C02:cli:body-read-by-a-later-call-after-bad-size-field:"+cls, det)
+				}
 				fs.Shutdown()
 			}
 		}
